@@ -24,23 +24,27 @@ Definition th_atom (fp : bool) (a : atom) : result pyval :=
 
 (* an item (or element) paired with the (lazily evaluated) conversion of its value *)
 Definition item := (pyval * pyval * result pyval)%type.
-Definition item_lt (a b : item) : result bool :=                    (* < on the (k, v) tuples of .items() *)
-  py_lt (pair_t (fst (fst a)) (snd (fst a))) (pair_t (fst (fst b)) (snd (fst b))).
+Definition item_lt (a b : item) : result bool :=                    (* key=lambda kv: _sort_key(kv[0]) *)
+  key_lt (fst (fst a)) (fst (fst b)).
 Definition elem := (pyval * result pyval)%type.
-Definition elem_lt (a b : elem) : result bool := py_lt (fst a) (fst b).
+Definition elem_lt (a b : elem) : result bool := key_lt (fst a) (fst b).      (* key=_sort_key *)
 
-(* _hashable_mapping: items = sorted(mapping.items()) if sort else mapping.items();
+(* _hashable_mapping: items = sorted(mapping.items(), key=lambda kv: _sort_key(kv[0])) if sort else mapping.items();
    tuple((k, to_hashable(v)) for k, v in items) *)
 Definition hashable_mapping (sort : bool) (items : list item) : result pyval :=
   do its <- (if sort then py_sort item_lt items else Ok items);
   do out <- mapM (fun it : item => do hv <- snd it; Ok (pair_t (fst (fst it)) hv)) its;
   Ok (PTuple out).
 
-(* _hashable_iterable: items = sorted(iterable) if sort else iterable; tuple(to_hashable(item) for item in items) *)
+(* _hashable_iterable: items = sorted(iterable, key=_sort_key) if sort else iterable; tuple(to_hashable(item) for item in items) *)
 Definition hashable_iterable (sort : bool) (elems : list elem) : result pyval :=
   do es <- (if sort then py_sort elem_lt elems else Ok elems);
   do out <- mapM (fun e : elem => snd e) es;
   Ok (PTuple out).
+
+(* masked arrays: None for a masked element, and the mask bit *)
+Definition mfill (x : pyval) : pyval := if is_maskedc x then PNone else x.
+Definition mbit (x : pyval) : pyval := PBool (is_maskedc x).
 
 Definition factory_val (f : option str) : pyval := match f with None => PNone | Some n => PType n end.
 Definition maxlen_val (m : option Z) : pyval := match m with None => PNone | Some z => PInt z end.
@@ -77,8 +81,9 @@ Fixpoint to_hashable (fp : bool) (v : pyval) {struct v} : result pyval :=
       | KDefault f =>
           (* to_hashable(obj.default_factory): a class or None - hashable, returned as it is *)
           do d <- hashable_mapping true items; Ok (conv (tp_map k) (PTuple [factory_val f; d]))
-      | KCounter =>                                                (* tuple(sorted(obj.items())): values NOT converted *)
-          do its <- py_sort item_lt items;
+      | KCounter =>
+          (* tuple(sorted(item for item in obj.items() if item[1] != 0)): values NOT converted, zero counts dropped *)
+          do its <- py_sort item_lt (filter (fun it : item => negb (is_zero (snd (fst it)))) items);
           Ok (conv (tp_map k) (PTuple (map (fun it : item => pair_t (fst (fst it)) (snd (fst it))) its)))
       | KDict => do d <- hashable_mapping true items; Ok (conv (tp_map k) d)
       end
@@ -91,11 +96,13 @@ Fixpoint to_hashable (fp : bool) (v : pyval) {struct v} : result pyval :=
       | KDeque ml => do d <- conv_elems; Ok (conv (tp_seq k) (PTuple [maxlen_val ml; d]))
       | KBytearray => Ok (conv (tp_seq k) (PTuple l))                               (* tuple(obj) *)
       | KArray c => Ok (conv (tp_seq k) (PTuple [PStr c; PTuple l]))                (* (typecode, tuple(obj)) *)
-      | KNd _ d sh =>
-          (* (obj.shape, obj.dtype.str, items) with items = tuple(obj.flatten()), for dtype object the elements
-             are converted (after the repair "fix: make the cache key of object ndarrays hashable") *)
-          do items <- (if str_eqb d dt_obj then conv_elems else Ok (PTuple l));
-          Ok (conv (tp_seq k) (PTuple [PTuple (map (fun z => PInt z) sh); PStr d; items]))
+      | KNd msk d sh =>
+          (* (obj.shape, obj.dtype.str, items[, mask]): items = the elements in logical C order (obj.flatten()),
+             converted for dtype object; for a MaskedArray the masked elements are replaced by None and the mask
+             is appended (repairs "object ndarray" and "masked array": the key is hashable) *)
+          do items <- (if str_eqb d dt_obj then conv_elems else Ok (PTuple (if msk then map mfill l else l)));
+          Ok (conv (tp_seq k) (PTuple ([PTuple (map (fun z => PInt z) sh); PStr d; items]
+                                       ++ (if msk then [PTuple (map mbit l)] else []))))
       end
   | PSeries n d idx vals =>
       (* (obj.name, to_hashable(obj.to_dict())) : the dict is unhashable -> dict branch -> sorted items *)
